@@ -84,12 +84,19 @@ func format(tr *tokenReader, w io.Writer) error {
 }
 
 func formatEnum(tr *tokenReader) []byte {
-	// enum <ID> {\n
+	// enum <ID> {\n or enum <ID> : <TYPE> {\n
 	enumBytes := tr.Token().concrete
 	for j := 0; j < 2; j++ {
 		enumBytes = append(enumBytes, ' ')
 		tr.Next()
 		enumBytes = append(enumBytes, tr.Token().concrete...)
+	}
+	if tr.Token().kind == tokenKindColon {
+		for j := 0; j < 2; j++ {
+			enumBytes = append(enumBytes, ' ')
+			tr.Next()
+			enumBytes = append(enumBytes, tr.Token().concrete...)
+		}
 	}
 	enumBytes = append(enumBytes, '\n')
 
